@@ -539,6 +539,17 @@ func TestC19Host(t *testing.T) {
 					t.Fatalf("route %s, %s %s, Host %q (%s), request number %d in a row with this Host header: %s", rt2.name, m2, q2.target, host, class, k+2, f)
 				}
 			}
+			// and not only on the routes the UI is known to have: whatever else is
+			// registered on the server's mux (debug endpoints pulled in by an import,
+			// a stray file server) is behind the same check, or it is a way round it
+			if rapid.Bool().Draw(t, "wildpath") {
+				seg := rapid.SampledFrom([]string{"debug", "debug/pprof", "debug/pprof/cmdline", "debug/pprof/goroutine?debug=2", "debug/pprof/heap", "debug/vars", "metrics", "favicon.ico", "robots.txt",
+					".git/config", "static/x.js", "api/v1/torrents", "x", "x/y", "index.html", "%2e%2e/etc/passwd", "debug/pprof/../pprof/cmdline"}).Draw(t, "wild")
+				wm := rapid.SampledFrom([]string{"GET", "GET", "HEAD", "POST"}).Draw(t, "wildmethod")
+				if f := checkRefused(w, wm, host, hreq{target: "/" + seg}); f != "" {
+					t.Fatalf("%s /%s with Host %q (%s): %s", wm, seg, host, class, f)
+				}
+			}
 			// positive control with a local host
 			lh := rapid.SampledFrom(localTable).Draw(t, "localhost")
 			before := snapshot()
